@@ -231,6 +231,7 @@ var lastConc *concResult
 type concResult struct {
 	outs      [][]Outcome
 	sharedMut string
+	ledger    string
 	deadlock  bool
 	digest    uint64
 }
@@ -330,6 +331,11 @@ func concRun(cs *C18Case, sr *RNG, replay bool, st *C18Stats) *concResult {
 	d = fnvU64(d, S.sigK)
 	d = fnvU64(d, P.digest)
 	res.digest = d
+	if P.stats.DupHandout > 0 {
+		res.ledger = "a pool handed out an object that another owner still holds (the object was in the free list twice)"
+	} else if P.stats.DoubleReturn > 0 {
+		res.ledger = "the same object was given back to a pool twice without having been borrowed in between"
+	}
 	if st != nil {
 		st.Yields += S.total
 		st.Switches += S.switches
@@ -448,6 +454,16 @@ func execC18(cs *C18Case, tier string, replay bool, st *C18Stats) (*Violation, u
 	}
 	if res.sharedMut != "" {
 		return &Violation{Property: "C18", Kind: "shared-mutated", FailOp: inFlightOps(cs), Class: "shared", Detail: res.sharedMut, Ops: allOpNames(cs)}, res.digest
+	}
+	if res.ledger != "" {
+		// interference through a pool, whether or not a result happened to differ in this interleaving (the ledger
+		// is exact, see sim/pool.go)
+		kinds := [...]string{"ints", "OpOpt", "scalar buffer"}
+		kd := ""
+		if k := int(P.lastDouble >> 8); P.stats.DoubleReturn > 0 && k < len(kinds) {
+			kd = fmt.Sprintf(" (%s pool, class %d)", kinds[k], P.lastDouble&0xff)
+		}
+		return &Violation{Property: "C18", Kind: "pool-ledger", FailOp: "pool", Class: "double-return", Detail: res.ledger + kd, Ops: allOpNames(cs)}, res.digest
 	}
 	for c := range solo {
 		for k := range solo[c] {
